@@ -148,22 +148,33 @@ def rule_a(chk, prog):
             n_reads += 1
             per_feature[attr] = per_feature.get(attr, 0) + 1
             chk.fn(key)
-            deps = cfg.transitive_control_deps(nid)
-            ok = False
-            why = ""
-            for tid, label in deps:
-                tn = cfg.nodes[tid]
+            # edges on which the switch is known to be ON; the read must not be reachable without passing one
+            on_edges = set()
+            for tn in cfg.live_nodes():
                 if tn.kind != "test":
                     continue
                 if kind == "method":
-                    if g.method_ok(fi, tn.ast, label, sw):
-                        ok, why = True, f"under irrigation_method == {sw}"
-                elif g.mentions_switch(fi, tn.ast, kind, sw):
-                    ok, why = True, f"control dependent on `{norm(tn.ast)}`"
-            # the switch may be an operand of the very test the read sits in
+                    for lab in (True, False):
+                        if g.method_ok(fi, tn.ast, lab, sw):
+                            on_edges.add((tn.id, lab))
+                elif kind == "flag":
+                    t_ = tn.ast
+                    if isinstance(t_, (ast.Name, ast.Attribute)) and g.attr_of(fi, t_) == sw:
+                        on_edges.add((tn.id, True))
+                    elif isinstance(t_, ast.Compare) and len(t_.ops) == 1 and g.attr_of(fi, t_.left) == sw and isinstance(t_.comparators[0], ast.Constant):
+                        val, op = t_.comparators[0].value, t_.ops[0]
+                        if isinstance(op, (ast.Eq, ast.Is)):
+                            on_edges.add((tn.id, bool(val)))
+                        elif isinstance(op, (ast.NotEq, ast.IsNot)):
+                            on_edges.add((tn.id, not bool(val)))
+                else:   # irrigation applied
+                    if g.mentions_switch(fi, tn.ast, kind, sw):
+                        on_edges.add((tn.id, True))
+                        on_edges.add((tn.id, False))
             own = cfg.nodes[nid]
-            if not ok and own.kind == "test" and g.mentions_switch(fi, own.ast, kind, sw) and kind != "method":
-                ok, why = True, "switch tested in the same condition"
+            ok = bool(on_edges) and not cfg.reachable_without_edges(nid, on_edges)
+            why = "every path to the read passes a test that establishes the switch" if ok else ""
+            # the read may itself be the second operand of the guarding condition (short-circuit): covered by the edges
             if not ok and attr == "AppEff":
                 # factor of the irrigation depth: Irr * (AppEff / 100)
                 st = own.ast
